@@ -480,7 +480,20 @@ func (c *Channel) ensureRegistered(ctx context.Context) error {
 	case <-ctx.Done():
 		err = ctx.Err()
 	}
-	return err
+	if err != nil {
+		return err
+	}
+
+	// The event has been seen: the channel is registered. If registering
+	// failed above because it already was, and awaitRegistered had set the
+	// phase before registerDispute set it to `Registering`, the phase was left
+	// there and nothing could follow. Set it (again).
+	l, err := c.tryLockRecursive(ctx)
+	defer l.Unlock()
+	if err != nil {
+		return errors.WithMessage(err, "locking recursive")
+	}
+	return errors.WithMessage(c.setRegisteredRecursive(ctx), "setting phase `Registered` recursive")
 }
 
 // awaitRegistered scans for an event indicating that the channel has been
